@@ -334,6 +334,11 @@ def compare(impl, model, cell=None, tol_rel=None):
             fin_a = [x for x in a if x == x and abs(x) != float("inf")]
             scale = max([1.0] + [abs(x) for x in fin_a])
             tol = tol_rel * scale
+            if cell[1] in ("avg_w", "avg_fl", "avg_fr"):
+                # iterative algorithms: up to `max_iterations` steps, each through a GEMM-evaluated Jacobian
+                # product; on ill-conditioned clouds (near the cut locus, large coordinates) the rounding
+                # difference of one step is amplified by the following ones (observed: 2e-12 relative)
+                tol = max(tol, min(1e4 * tol_rel, 1e-3) * scale)
             if cell in LU_CELLS:
                 tol = max(tol, 0.1 * tol_rel * scale * scale)
             ok = all((x == y) or (x != x and y != y) or abs(x - y) <= tol for x, y in zip(a, b))
